@@ -62,6 +62,8 @@ class SimKind:
     def assign(self, m, values_per_variant, name):
         tab = G if name == "g" else RHO
         vals = [tab[v] for v in values_per_variant]
+        if len(vals) >= 3 and vals[-1] == vals[-2]:
+            vals = vals[:-1]            # a list shorter than the number of variants: its last value is repeated
         m.assign(**{name: vals if len(vals) > 1 else vals[0]})
 
     def steady_obs(self, m):
@@ -159,11 +161,14 @@ class Refs:
     def __init__(self, kind):
         self.kind, self.memo = kind, {}
 
-    def get(self, p):
+    def get(self, p, order=0):
         p = tuple(p)
-        if p not in self.memo:
+        key = p if not order else (p, order)
+        if key not in self.memo:
             k = self.kind
             m = k.fresh()
+            if order:
+                m.reorder_equations(SEQ_ORDERS[order])
             k.assign(m, [p[0]], "g")
             k.assign(m, [p[1]], "rho")
             ref = {}
@@ -175,8 +180,8 @@ class Refs:
                 ref["simulate"] = k.simulate_obs(m)[0]
             else:
                 ref["simulate"] = k.simulate_obs(m)[0]
-            self.memo[p] = ref
-        return self.memo[p]
+            self.memo[key] = ref
+        return self.memo[key]
 
 
 def close(a, b, tol=1e-9):
@@ -184,6 +189,7 @@ def close(a, b, tol=1e-9):
     return a.shape == b.shape and np.allclose(a, b, rtol=tol, atol=tol, equal_nan=True)
 
 
+SEQ_ORDERS = {0: [0, 1, 2], 1: [1, 2, 0], 2: [2, 0, 1]}      # equation orders of the Sequential model (indices into the order as written)
 TOLS = {1: 1e-11, 2: 1e-10}      # "eigenvalue" tolerance (unit-root classification): no effect on the numbers compared here
 
 
@@ -241,8 +247,10 @@ def compare_all(chk, kind, refs, models, st, where, payload, opname):
                 if not isinstance(v["so"], tlaval.MV) and (lobs[i] is None or not close(lobs[i], refs.get(v["so"])["solution"], 1e-8)):
                     chk.mismatch("model:sim:%s:solution:%s" % (opname, role), where + ": solution of %s variant %d differs from the singleton reference for %s" % (h, i, tuple(v["so"])), payload)
                     return False
-            if simobs is not None and not close(simobs[i], refs.get(v["p"])["simulate"], 1e-8):
-                chk.mismatch("model:%s:%s:simulate:%s" % (kind.name, opname, role), where + ": simulation of %s variant %d differs from the singleton reference for %s" % (h, i, tuple(v["p"])), payload)
+            ref_sim = refs.get(v["p"], st["tol"][h])["simulate"] if kind.name == "seq" else refs.get(v["p"])["simulate"]
+            if simobs is not None and not close(simobs[i], ref_sim, 1e-8):
+                chk.mismatch("model:%s:%s:simulate:%s" % (kind.name, opname, role), where + ": simulation of %s variant %d differs from the singleton reference for %s%s" % (
+                    h, i, tuple(v["p"]), " with its equations in order %s" % SEQ_ORDERS[st["tol"][h]] if kind.name == "seq" else ""), payload)
                 return False
     return True
 
@@ -261,6 +269,7 @@ def check_history(chk, kind, refs, states, tmpdir):
     kind.assign(models["h1"], [1], "g")
     kind.assign(models["h1"], [1], "rho")
     ops = [_plain(s["last"]) for s in states[1:]]
+    orders = {}
     payload = {"kind": "model-hist", "model": kind.name, "ops": ops}
     for i, st in enumerate(states[1:], 1):
         last = st["last"]
@@ -277,9 +286,15 @@ def check_history(chk, kind, refs, states, tmpdir):
                 models[last[1]].solve()
             elif op == "alter":
                 models[last[1]].alter_num_variants(last[2])
+            elif op == "tol" and kind.name == "seq":
+                h_, tgt = last[1], last[2]
+                cur = SEQ_ORDERS[orders.get(h_, 0)]
+                models[h_].reorder_equations([cur.index(e) for e in SEQ_ORDERS[tgt]])
+                orders[h_] = tgt
             elif op == "tol":
                 models[last[1]].override_tolerance(eigenvalue=TOLS[last[2]])
             elif op == "dup":
+                orders[last[2]] = orders.get(last[1], 0)
                 try:
                     models[last[2]] = dup(models[last[1]], last[3], tmpdir, i)
                 except Exception as ex:
